@@ -1,8 +1,8 @@
 use bytes::{Buf, BufMut, Bytes, BytesMut};
 
 use super::{
-    len_len, length, property, read_mqtt_bytes, read_mqtt_string, read_u8, write_mqtt_bytes,
-    write_mqtt_string, write_remaining_length, Error, FixedHeader, PropertyType,
+    len_len, length_in_frame, property, read_mqtt_bytes, read_mqtt_string, read_u8,
+    write_mqtt_bytes, write_mqtt_string, write_remaining_length, Error, FixedHeader, PropertyType,
 };
 
 /// Auth packet reason code
@@ -129,7 +129,7 @@ impl AuthProperties {
     }
 
     pub fn read(bytes: &mut Bytes) -> Result<Option<AuthProperties>, Error> {
-        let (properties_len_len, properties_len) = length(bytes.iter())?;
+        let (properties_len_len, properties_len) = length_in_frame(bytes.iter())?;
         bytes.advance(properties_len_len);
         if properties_len == 0 {
             return Ok(None);
